@@ -14,7 +14,8 @@ RULE = ("minimally-pushed scripts from the C02 grammar over every opcode of the 
         "and 65534..65537 in every encoding that can carry it, every opcode at top level / pass / else / nested positions, each "
         "IF-family opcode (incl. VERIF/VERNOTIF) as opener in each reader with and without ELSE, alias neighbours ('0k', '+k', "
         "'-k'), the empty input for every op; every rendering is cross-checked against to_asm_string_impl, from_hex, clone and "
-        "scripts re-assembled with from_script_bits / push / push_array; "
+        "scripts re-assembled with from_script_bits / push / push_array; call-history stream script.build_history: one Script object "
+        "grown by push / push_array / from_script_bits / clone in every order of modes and chunks, observed after every step; "
         "non-trivial = the model returns OK; distinct by (op, arguments)")
 TRUSTED = ["hand-written Gallina model coq/Model/Asm.v of script_bits_to_asm_string / map_string_to_script_bit / from_asm_string in "
            "src/script/mod.rs and of str::split_whitespace, str::trim (ASCII), hex::encode/decode, strum EnumString/Debug names "
@@ -353,6 +354,26 @@ def generate(rng, tier):
             FA(t); FA("OP_DUP " + t + " OP_DROP")
     # the empty input for every entry point
     RT(""); TA(""); TE(""); FA("")
+
+    # --- STATE / CALL HISTORY: one Script object grown by push / push_array / from_script_bits / clone, observed after each step
+    import itertools
+    BH = lambda steps: cases.append(("script.build_history", ["/".join("%s.%s" % (m, d) for m, d in steps)]))
+    pool = ["51", "00", "0105", "0117", "6a", "76a914+r:11:20+88ac", "63516768", "646768", "6368", "67", "68", "4b+r:05:75", "4c4c+r:05:76",
+            "4cff+l:3:255", "4d0001+l:4:256", "fd", "4f", "0200ff", "656768", "66516768", "", "60", "01ff"]
+    k = 0
+    for modes in itertools.product("panc", repeat=3):           # every order of the four ways to extend the object
+        steps = []
+        for m in modes:
+            steps.append((m, pool[k % len(pool)])); k += 1
+        BH(steps)
+    for perm in itertools.permutations(["63516768", "0105", "4c4c+r:05:76"]):     # same chunks, every order, every single mode
+        for m in "panc":
+            BH([(m, d) for d in perm])
+    for d in pool:
+        for m in "panc":
+            BH([(m, d)]); BH([(m, d), (m, d)])
+    BH([]); BH([("p", "0111")]); BH([("a", "51"), ("n", "0110"), ("c", "ac")]); BH([("p", "4c0105")]); BH([("a", "0501"), ("p", "51")]); BH([("n", "4c00"), ("a", "51")])
+    BH([("p", "r:63:20+51+r:68:20"), ("a", "r:64:20+r:67:1+r:68:20")])
 
     # --- P2PKH scripts built through ASM text
     for h in ["r:00:20", "r:11:20", "r:10:20", "r:ff:20", "l:7:20", "l:8:20", "1000000000000000000000000000000000000000", "r:11:19", "r:11:21", ""]:
